@@ -1322,7 +1322,10 @@ func (r *Run) calleeWrites(fr *Frame, call ssa.CallInstruction, depth int) (map[
 				return map[string]bool{"[]" + typeName(fr.te.apply(sl.Elem())): true}, false
 			}
 			return nil, true
-		case "delete":
+		case "delete", "clear":
+			if _, isMap := types.Unalias(com.Args[0].Type()).Underlying().(*types.Map); !isMap {
+				return nil, true
+			}
 			return map[string]bool{"map:" + typeName(com.Args[0].Type()): true}, false
 		default:
 			return nil, false
